@@ -43,3 +43,161 @@ Proof. vm_compute. split; reflexivity. Qed.
 Check C12_ok_needs_marker.
 Print Assumptions C12_ok_needs_marker.
 Print Assumptions C12_only_chosen.
+
+(* ====================================================================================== *)
+(* The functional clause (work package c12full): "delivers to each chosen file exactly the
+   bytes that reading that file individually returns, delivers nothing for files not chosen".
+
+   Quantifier, as in C01: ops = ANY list of writer calls all of which returned Ok, followed by
+   finalize (any interleaving of any number of files; `started 0 ops` = the names with the id
+   each got, `pieces 0 id ops` = the bytes given for that id in call order); every
+   FILENAME_MAX_SIZE, pairwise distinct tags, 32-byte hash, EVERY footer order; ANY stream S
+   behaving as a cursor over the block stream (Refines: short reads allowed — any layer stack,
+   C11), any reader state over it (RS: what open returns and get_file/get_hash keep); ANY
+   export list (empty, one, all, with or without names the archive lacks, in any order, with
+   repetitions).  Explicit bound on the model's fuel: more loop steps than the archive has
+   bytes.  `delivered name out` = the concatenation, in order, of the pieces handed to the
+   writer registered under `name` (one piece per FileContent block of a chosen file). *)
+From MLA Require Import RoundTripBlocks RoundTripFooter RoundTripReader RoundTripWriter RoundTripRun
+  RoundTripGlue RoundTrip Sink SinkProofs LinearRoundTripDefs LinearRoundTripPure LinearRoundTrip.
+From MLA Require RoundTripInst LinearRoundTripInst.
+From Coq Require Import Permutation.
+
+(* the walk as a function of the typed block list: over a well-formed block list followed by
+   the end-of-data marker the loop computes lx_spec (never Err, never Crash) *)
+Theorem C12_walk_is_spec :
+  forall FNMAX TS TC TA TE, tags_distinct TS TC TA TE ->
+  forall (S : Stream) (bl : list block) (post : bytes) (R : st S -> N -> Prop),
+  Refines S (ser_blocks TS TC TA TE bl ++ [TA] ++ post) R -> Forall (wfb FNMAX) bl ->
+  forall export rest done fuel s ids acc,
+    bl = done ++ rest -> R s (len (ser_blocks TS TC TA TE done)) ->
+    (N.to_nat (len (ser_blocks TS TC TA TE rest)) < fuel)%nat ->
+    lx_loop FNMAX TS TC TA TE S fuel s export ids acc = Ok (lx_spec export rest ids acc).
+Proof. exact lx_walk. Qed.
+
+(* 1-3: it succeeds; each chosen file of the archive receives exactly the bytes written for it
+   (= what get_file + reads return, C01_get_file), a file not chosen receives nothing, a chosen
+   name the archive lacks receives nothing, and every piece goes to a chosen name *)
+Theorem C12_linear_delivers_written :
+  forall FNMAX TS TC TA TE (H : bytes -> bytes) (order : footer -> footer),
+  tags_distinct TS TC TA TE -> (forall x, len (H x) = 32) ->
+  forall ops sf rs,
+  wrun FNMAX TS TC TA TE H order w_init (ops ++ [OFinalize]) = (sf, rs) ->
+  Forall (fun r => is_ok r = true) rs -> forallb op_utf8 ops = true ->
+  len (w_out sf) < 2 ^ 64 -> len (ser_footer_map (order (w_footer sf))) < 2 ^ 32 ->
+  forall (S : Stream) (R : st S -> N -> Prop), Refines S (w_out sf) R ->
+  forall (r : rstate S) (export : list bytes) (fuel : nat),
+  RS order sf S R r -> (N.to_nat (len (w_out sf)) < fuel)%nat ->
+  exists out, linear_extract FNMAX TS TC TA TE S fuel r export = Ok out /\
+    chosen_only export out /\
+    (forall name id, In (name, id) (started 0 ops) ->
+       delivered name out = if name_in export name then pieces 0 id ops else []) /\
+    (forall name, ~ In name (map fst (started 0 ops)) -> delivered name out = []).
+Proof. exact linear_roundtrip. Qed.
+
+(* "exactly the bytes that reading that file individually returns", literally: what the
+   writer of a chosen file received is the result of get_file on that name followed by reads
+   to the end with any positive buffer sizes (r2: any reader state over the archive, e.g. the
+   one before or the one after the linear extraction), and get_file's size is its length *)
+Theorem C12_linear_equals_per_file :
+  forall FNMAX TS TC TA TE (H : bytes -> bytes) (order : footer -> footer),
+  tags_distinct TS TC TA TE -> (forall x, len (H x) = 32) -> (forall f, Permutation (order f) f) ->
+  forall ops sf rs,
+  wrun FNMAX TS TC TA TE H order w_init (ops ++ [OFinalize]) = (sf, rs) ->
+  Forall (fun r => is_ok r = true) rs -> forallb op_utf8 ops = true ->
+  len (w_out sf) < 2 ^ 64 -> len (ser_footer_map (order (w_footer sf))) < 2 ^ 32 ->
+  forall (S : Stream) (R : st S -> N -> Prop), Refines S (w_out sf) R ->
+  forall (r r2 : rstate S) (export : list bytes) (fuel : nat),
+  RS order sf S R r -> RS order sf S R r2 -> (N.to_nat (len (w_out sf)) < fuel)%nat ->
+  exists out, linear_extract FNMAX TS TC TA TE S fuel r export = Ok out /\
+    forall name id, In (name, id) (started 0 ops) -> name_in export name = true ->
+    exists r' bs sz, get_file FNMAX TS TC TA TE S r2 name = (r', Ok (Some (bs, sz))) /\
+      sz = len (delivered name out) /\
+      forall sizes : nat -> N, (forall i, 0 < sizes i) ->
+      forall zf fuel2, (length (pieces 0 id ops) < fuel2)%nat ->
+      exists bs', read_all FNMAX TS TC TA TE S zf fuel2 bs sizes 0%nat [] = (bs', Ok (delivered name out)).
+Proof. exact linear_equals_per_file. Qed.
+
+(* "sinks that accept writes in arbitrary pieces": io::copy hands each block's data to the
+   file's writer with write_all, in buffers of its choosing (split: ANY cutting of each piece);
+   the writer accepts any part (>= 1 byte) of each write and reports interruptions at will
+   (good_sched, as C13_write_all_sched): every write_all returns Ok and the writer ends up
+   holding exactly the file's bytes behind whatever it held before *)
+Theorem C12_linear_any_sink :
+  forall FNMAX TS TC TA TE (H : bytes -> bytes) (order : footer -> footer),
+  tags_distinct TS TC TA TE -> (forall x, len (H x) = 32) ->
+  forall ops sf rs,
+  wrun FNMAX TS TC TA TE H order w_init (ops ++ [OFinalize]) = (sf, rs) ->
+  Forall (fun r => is_ok r = true) rs -> forallb op_utf8 ops = true ->
+  len (w_out sf) < 2 ^ 64 -> len (ser_footer_map (order (w_footer sf))) < 2 ^ 32 ->
+  forall (S : Stream) (R : st S -> N -> Prop), Refines S (w_out sf) R ->
+  forall (r : rstate S) (export : list bytes) (fuel : nat)
+         (split : bytes -> list bytes) (k : sink) (wfuel : nat),
+  RS order sf S R r -> (N.to_nat (len (w_out sf)) < fuel)%nat ->
+  (forall b, concat (split b) = b) -> good_sched (sk_sched k) ->
+  exists out, linear_extract FNMAX TS TC TA TE S fuel r export = Ok out /\
+    forall name id, In (name, id) (started 0 ops) -> name_in export name = true ->
+    (N.to_nat (len (pieces 0 id ops)) + length (sk_sched k) < wfuel)%nat ->
+    exists k', write_all_list SinkW wfuel k (flat_map split (pieces_to name out)) = (k', WAOk) /\
+               sk_data k' = sk_data k ++ pieces 0 id ops.
+Proof. exact linear_any_sink. Qed.
+
+(* the pure core: on a block list without end marker in which the blocks of `id` are
+   FileStart, FileContent*, EndOfFile and names are pairwise distinct, the walk delivers to
+   that file's name the data of its content blocks if chosen, nothing otherwise *)
+Theorem C12_spec_file :
+  forall export bl name id nm ds h,
+  ~ In BEnd bl -> NoDup (map fst (names_of bl)) -> In (name, id) (names_of bl) ->
+  proj id bl = BStart id nm :: map (BContent id) ds ++ [BEof id h] ->
+  delivered name (lx_spec export bl [] []) = if name_in export name then concat ds else [].
+Proof. exact lx_spec_file. Qed.
+
+(* non-vacuity: the concrete run of C01 (RoundTripInst: files a, b, "cé"; a's two pieces
+   separated by b's block and the add_file of "cé"; FILENAME_MAX_SIZE = 48, source tags,
+   SHA-256, footer in reverse order; throttled stream delivering 1, 3, 2, 2, ... bytes per
+   read) meets every hypothesis (C01_nonvacuous_hyps) and the fuel bound: the theorem applies
+   to it for every opened reader and every export list ... *)
+Example C12_linear_nonvacuous_applies :
+  forall r export, RS RoundTripInst.ex_order RoundTripInst.ex_sf RoundTripInst.ex_S RoundTripInst.ex_R r ->
+  exists out,
+    linear_extract 48 Src.BT_FileStart Src.BT_FileContent Src.BT_EndOfArchiveData Src.BT_EndOfFile
+                   RoundTripInst.ex_S LinearRoundTripInst.lx_ex_fuel r export = Ok out /\
+    chosen_only export out /\
+    (forall name id, In (name, id) (started 0 RoundTripInst.ex_ops) ->
+       delivered name out = if name_in export name then pieces 0 id RoundTripInst.ex_ops else []) /\
+    (forall name, ~ In name (map fst (started 0 RoundTripInst.ex_ops)) -> delivered name out = []).
+Proof. exact LinearRoundTripInst.lx_ex_applies. Qed.
+Example C12_linear_nonvacuous_reader :
+  exists r, ropen RoundTripInst.ex_S RoundTripInst.ex_s0 = Ok r /\
+            RS RoundTripInst.ex_order RoundTripInst.ex_sf RoundTripInst.ex_S RoundTripInst.ex_R r.
+Proof. exact RoundTripInst.ex_open_applies. Qed.
+(* ... and evaluated (open, then extraction): strict subsets, a name the archive lacks, the
+   empty subset, everything; a's writer holds pieces 0 0 = what get_file + reads returned; the
+   same through a sink accepting 1, (interrupt), 2, (interrupt x2), 1, 1 bytes, each piece
+   cut after its first byte *)
+Example C12_linear_nonvacuous_evaluated :
+  let run := LinearRoundTripInst.lx_ex_run in
+  let all := [([97], [1; 2; 3]); ([98], [7; 8]); ([99; 195; 169], [5; 6]); ([97], [4])] in
+  run [[97]; [100]] = Some (Ok [([97], [1; 2; 3]); ([97], [4])]) /\
+  run [[99; 195; 169]; [98]] = Some (Ok [([98], [7; 8]); ([99; 195; 169], [5; 6])]) /\
+  run [] = Some (Ok []) /\
+  run [[97]; [98]; [99; 195; 169]] = Some (Ok all) /\
+  delivered [97] all = [1; 2; 3; 4] /\
+  pieces 0 0 RoundTripInst.ex_ops = [1; 2; 3; 4] /\
+  RoundTripInst.ex_read [97] = Some (4, Ok [1; 2; 3; 4], true, Ok (Some (Sha256.sha256 [1; 2; 3; 4]))) /\
+  (let '(k, r) := write_all_list SinkW 20 LinearRoundTripInst.lx_ex_sink
+                    (flat_map LinearRoundTripInst.lx_ex_split (pieces_to [97] all)) in
+   (sk_data k, r)) = ([200; 1; 2; 3; 4], WAOk).
+Proof. exact LinearRoundTripInst.lx_ex_evaluated. Qed.
+
+(* the row the correspondence job compares with the implementation (Run.hist_op, op 4: what
+   each chosen name's ThrottledWriter collected) is `delivered` *)
+Theorem C12_row_is_delivered : forall name ps, Run.pieces_for name ps = delivered name ps.
+Proof. exact LinearRoundTripInst.run_row_is_delivered. Qed.
+
+Check C12_linear_delivers_written.
+Print Assumptions C12_walk_is_spec.
+Print Assumptions C12_linear_delivers_written.
+Print Assumptions C12_linear_equals_per_file.
+Print Assumptions C12_linear_any_sink.
+Print Assumptions C12_spec_file.
